@@ -34,19 +34,20 @@ type scen struct {
 	dlFail   map[int]int64
 
 	// filled by the runner
-	link      *node.Link
-	rc        *recConn
-	results   []result
-	launched  []int64 // logical time of launch per writer
-	ctxEver   []bool  // context was cancelled at some point (before or while waiting)
-	evs       []string
-	quit      bool // direct: quit channel closed before the calls
-	callEnd   []int64
-	anomaly   string
-	big       bool // written as a compact CCoalBig case
-	rounds    []int
-	doneCh    []chan struct{} // per writer: closed when its result is in
-	nilFaults bool
+	link         *node.Link
+	rc           *recConn
+	results      []result
+	launched     []int64 // logical time of launch per writer
+	ctxEver      []bool  // context was cancelled at some point (before or while waiting)
+	evs          []string
+	quit         bool // direct: quit channel closed before the calls
+	callEnd      []int64
+	anomaly      string
+	emptyFlushes int  // the timer fired with nothing queued
+	big          bool // written as a compact CCoalBig case
+	rounds       []int
+	doneCh       []chan struct{} // per writer: closed when its result is in
+	nilFaults    bool
 }
 
 func (s *scen) setup() {
@@ -420,10 +421,23 @@ func (m *manualCoal) noteReturned(t int) {
 }
 
 // fire ends the coalescing window and waits for the flush to finish.
+// The harness plays the timer faithfully: it fires exactly when the flusher has armed it (resetTimer) since the
+// last time it fired - also when, to the harness's knowledge, nothing is queued (then the flusher armed it for a
+// request it did not queue; what follows from that shows in the later rounds).
 func (m *manualCoal) fire() {
-	if len(m.queued) == 0 {
+	if len(m.queued) > 0 {
+		// the flusher arms the timer while handling the receive; the writer's hook may have run first
+		for i := 0; atomic.LoadInt32(&m.armed) == 0 && i < 200000; i++ {
+			time.Sleep(10 * time.Microsecond)
+		}
+	}
+	if atomic.SwapInt32(&m.armed, 0) == 0 {
+		if len(m.queued) > 0 {
+			m.s.anomaly = "the flusher queued a request without arming its timer"
+		}
 		return
 	}
+	empty := len(m.queued) == 0
 	select {
 	case m.timerC <- time.Now():
 	case <-time.After(watchdog):
@@ -434,6 +448,10 @@ func (m *manualCoal) fire() {
 	case <-m.flushed:
 	case <-time.After(watchdog):
 		m.s.anomaly = "flush never finished"
+		return
+	}
+	if empty {
+		m.s.emptyFlushes++ // a window that ended with nothing queued: no WFlush for the model
 		return
 	}
 	m.s.evs = append(m.s.evs, "WFlush")
